@@ -51,8 +51,15 @@ PrintAll(id, ms) ==
   ELSE /\ PrintT("MISMATCH|" \o id \o "|" \o ToString(Head(ms)[1]) \o "|" \o Head(ms)[2] \o "|" \o Head(ms)[3])
        /\ PrintAll(id, Tail(ms))
 
+\* a rejected line leaves the session exactly as it was: every other line behaves as in the session without it
+Invisible(r, msgs) ==
+  LET bad == {n \in 1..Len(r.removals) : r.removals[n].here # r.removals[n].there} IN
+  IF bad = {} THEN msgs
+  ELSE LET n == CHOOSE x \in bad : TRUE IN
+       Append(msgs, <<r.removals[n].k, "RejectedLineInvisible", ToString(<<r.removals[n].here, r.removals[n].there>>)>>)
+
 JudgeRecord(r) ==
-  LET ms == Judge(r, 1, FALSE, <<>>, <<>>) IN PrintAll(r.id, Probes(r, ms, r.dead))
+  LET ms == Judge(r, 1, FALSE, <<>>, <<>>) IN PrintAll(r.id, Invisible(r, Probes(r, ms, r.dead)))
 
 Init == i = 1
 Next == i <= Len(Rec) /\ JudgeRecord(Rec[i]) /\ i' = i + 1
